@@ -430,13 +430,50 @@ def gen_group_history(rng):
     return ["filter 19 0", "src synthetic " + desc], ann, steps, "%s|%s|dm=%s" % (desc, mode, "".join(map(str, dms)))
 
 
+def gen_disallowed_history(rng):
+    """Topologies whose disallowed PUs / NUMA nodes were dropped at load, so that cpuset != complete_cpuset and
+    nodeset != complete_nodeset on the surviving objects: load with INCLUDE_DISALLOWED, hwloc_topology_allow(CUSTOM),
+    XML export, reload without the flag; then restrictions whose sets also name the dropped indexes.
+    Returns (config lines, annotation lines, step lines, description)."""
+    shape = rng.choice(["pn", "pn", "attach", "msc", "grp"])
+    P = rng.choice([2, 3, 4])
+    U = rng.choice([1, 2])
+    if shape == "pn":
+        desc, npu, nnuma = "pack:%d numa:1 pu:%d" % (P, U), P * U, P
+    elif shape == "attach":
+        C = rng.choice([1, 2])
+        desc, npu, nnuma = "pack:%d [numa] core:%d pu:%d" % (P, C, U), P * C * U, P
+    elif shape == "msc":
+        desc, npu, nnuma = "numa:%d(memorysidecachesize=4096) core:2 pu:%d" % (P, U), P * 2 * U, P
+    else:
+        desc, npu, nnuma = "group:%d [numa] core:2 pu:%d" % (P, U), P * 2 * U, P
+    pus, numas = list(range(npu)), list(range(nnuma))
+    what = rng.choice(["node", "node", "cpu", "both"])
+    acs = "-"
+    ans = "-"
+    if what in ("cpu", "both"):
+        acs = set_text(sorted(rng.sample(pus, rng.randint(1, max(1, npu - 1)))))
+    if what in ("node", "both"):
+        ans = set_text(sorted(rng.sample(numas, rng.randint(1, max(1, nnuma - 1)))))
+    cfg = ["filter 19 0", "filter 15 0", "flags 1", "src synthetic " + desc]
+    ann = ["allow 4 %s %s" % (acs, ans), "reload 0"]
+    if rng.random() < 0.3:
+        ann.append("misc %d %d m" % (rng.choice([1, 2, -3]), rng.randrange(3)))
+    steps = []
+    for _ in range(rng.choice([1, 1, 2, 3])):
+        fl = rng.choice([24, 24, 26, 8, 8, 12, 0, 0, 1, 3, 7, 30]) if rng.random() < 0.85 else gen_flags(rng)
+        kind, s = gen_set(rng, numas if (fl & 8) else pus)      # the universe still names the dropped indexes
+        steps.append("restrict %s %d" % (s, fl))
+    return cfg, ann, steps, "%s|allow %s %s" % (desc, acs, ans)
+
+
 def script_of(cfg, ann, steps):
     return ["new"] + cfg + ["load"] + ann + steps + ["destroy"]
 
 
 def shrink(lines, still_fails):
     """Delta-debugging over the removable lines (annotations and restrict steps) of a script."""
-    fixed = lambda l: not (l.startswith("restrict ") or l.startswith("misc ") or l.startswith("ud ") or l.startswith("group "))
+    fixed = lambda l: not (l.startswith("restrict ") or l.startswith("misc ") or l.startswith("ud ") or l.startswith("group ") or l.startswith("allow ") or l.startswith("reload "))
     cur = list(lines)
     changed = True
     while changed:
